@@ -181,13 +181,35 @@ def paths_ok(fam, objs, fallback):
     return True
 
 
-def run_history(rng, upo, ncalls, variant):
+def directed_scripts():
+    """Fixed two-call histories (use_pull_operations=None) that exhibit the
+    listed sticky-flag findings in every run, for each Iter operation with a
+    learnable flag."""
+    out = []
+    base = dict(fq=False, coe=False, moc="ok", mocn=1, n=3, tradok=True,
+                consume="exhaust", k=0, fault=0)
+    for fam in (1, 2, 3, 4, 5, 6):
+        c = dict(base, fam=fam)
+        out.append([(False, c), (True, dict(c, fq=True))])      # learned F
+        out.append([(True, c), (False, c)])                     # learned T
+        out.append([(True, c), (False, dict(c, coe=True))])     # learned T
+    return out
+
+
+def run_history(rng, upo, ncalls, variant, script=None):
     disabled = rng.random() < 0.4
+    if script:
+        disabled = not script[0][0]
+        ncalls = len(script)
     conn = new_conn(upo, disabled)
     learned = dict((f, upo) for f in ITER)       # mirror of the documented rule
     events, info = [], []
-    for _ in range(ncalls):
-        if rng.random() < 0.35:
+    for step in range(ncalls):
+        if script:
+            if disabled != (not script[step][0]):
+                disabled = not script[step][0]
+                conn.disable_pull_operations = disabled
+        elif rng.random() < 0.35:
             disabled = not disabled
             conn.disable_pull_operations = disabled
         srv = not disabled
@@ -202,6 +224,10 @@ def run_history(rng, upo, ncalls, variant):
                  consume=rng.choice(["exhaust", "exhaust", "close", "drop"]),
                  k=rng.choice([0, 1, 2, 3]),
                  fault=rng.choice([0, 0, 0, 1, 2]))
+        if script:
+            c = dict(script[step][1])
+            fam = c["fam"]
+            variant = 0
         if fam == 7:
             c["fq"] = False
         # reference result: the traditional operation on the same server
@@ -281,7 +307,8 @@ def run(ctx):
         sens.append("%s violates ImplRefinesReq as required (%s)" % (cfg, what))
     ctx.extra["sensitivity"] = sens
     nh = 240 if quick else 5000
-    hists = []
+    hists = [run_history(ctx.rng, "N", 2, 0, script=sc)
+             for sc in directed_scripts()]
     for i in range(nh):
         upo = ["N", "N", "T", "F"][i % 4]
         hists.append(run_history(ctx.rng, upo, ctx.rng.randint(3, 9), i))
